@@ -28,10 +28,22 @@ structure MdPat where
   detach : List Nat := []
   tags : List Nat := []
   junk : Nat := 0
+  /-- `id` attributes that nothing refers to, on ancestors of what the items and `itemref` need (bit 0: body,
+      bit 1: html, bit 2: a wrapper around each detached property element, bit 3: a wrapper around each top-level
+      item): where an element is in the tree of ids must not matter to `itemref` -/
+  wrapId : Nat := 0
   deriving Repr, DecidableEq, Inhabited
 
 section
 variable {β : Type} [DecidableEq β]
+
+def natStr (k : Nat) : Str := (Nat.toDigits 10 k).map Char.toNat
+
+/-- wrap `t` in `<div id=name>` -/
+def idWrap (on : Bool) (name : Str) (t : Tree) : Tree :=
+  if on then .elem .div { id := some name } [t] else t
+
+def bit (n k : Nat) : Bool := n / 2 ^ k % 2 == 1
 
 def mnth (l : List Nat) (i : Nat) : Nat := l.getD i 0
 def onth (l : List (Option Str)) (i : Nat) : Option Str := (l.getD i none)
@@ -132,12 +144,17 @@ def subjectsOf (g : List (Triple β)) : List (Term β) :=
 /-- candidate document and where it puts each blank node -/
 def MdPat.build (lbl : β → Str) (P : MdPat) (g : List (Triple β)) : Tree × (β → Path) :=
   let tops := (subjectsOf g).filter (fun s => match s with | .bnode b => !isNested P g b | _ => true)
-  let items := tops.map (itemFor lbl P g (g.length + 2))
+  let items := tops.zipIdx.map (fun x =>
+    idWrap (bit P.wrapId 3) (asc "iw" ++ natStr x.2) (itemFor lbl P g (g.length + 2) x.1))
   let detached := (idxTriples g).filterMap (fun x =>
     if isDetached P x.1 x.2 then
-      some (leafFor (mnth P.form x.1) ((onth P.names x.1).getD x.2.p) (onth P.objs x.1) (some (detachedId x.1)) x.2.o)
+      some (idWrap (bit P.wrapId 2) (asc "dw" ++ natStr x.1)
+        (leafFor (mnth P.form x.1) ((onth P.names x.1).getD x.2.p) (onth P.objs x.1) (some (detachedId x.1)) x.2.o))
     else none)
-  let doc := docOf (mwithNoise P.junk 0 (if P.junk % 2 == 0 then items ++ detached else detached ++ items))
+  let kids := mwithNoise P.junk 0 (if P.junk % 2 == 0 then items ++ detached else detached ++ items)
+  let doc : Tree :=
+    .elem .html { id := if bit P.wrapId 1 then some (asc "top") else none }
+      [.elem .head {} [], .elem .body { id := if bit P.wrapId 0 then some (asc "page") else none } kids]
   (doc, fun b => (findIdNode (lbl b) [] doc).getD [])
 
 end
